@@ -118,10 +118,33 @@ Definition cret (size : Z) (m : kmem) (t : nat) (c : mc) (v : Z) : kmem * list Z
   | MWt5 a p k => (m, [], attempt a p k)
   end.
 
+(* A failed pop inside do_maintenance (the deferred unlock of the channel lock
+   finds a locker announced in the counter but not yet linked) yields with
+   manager->current_fiber = the maintenance fiber, whose state (not registered)
+   is RUNNING: that yield is only the fiber_scheduler_next point and returns.
+   T1K.kstep models the yield of a failed pop as a yield of fiber t itself
+   (right outside maintenance); the difference is overridden here, exactly as
+   in Cond.v.  We are inside do_maintenance iff an MSlots continuation is on
+   the stack. *)
+Definition is_mslots (f : frame mc) : bool := match f with MSlots => true | _ => false end.
+Definition in_maint (r : stack mc) : bool := existsb is_mslots r.
+
+Definition kstepC (size : Z) (m : kmem) (t : nat) (s : stack mc) : kmem * list Z * stack mc :=
+  match s with
+  | KNext q cnt wc h :: r =>
+      match nnext m h with
+      | O => if (0 <? cnt) && in_maint r
+             then (m, ev t (l_next h) 9 0, YNext ST_RUNNING :: KSpin q cnt wc :: r)
+             else kstep mc (cret size) m t s
+      | S _ => kstep mc (cret size) m t s
+      end
+  | _ => kstep mc (cret size) m t s
+  end.
+
 Record st := { mem : kmem; stk : nat -> stack mc; nthr : nat; csize : Z }.
 
 Definition step (s : st) (t : nat) : st * list Z :=
-  let '(m1, e1, s1) := kstep mc (cret (csize s)) (mem s) t (stk s t) in
+  let '(m1, e1, s1) := kstepC (csize s) (mem s) t (stk s t) in
   ({| mem := m1; stk := upd (stk s) t s1; nthr := nthr s; csize := csize s |}, e1).
 
 Definition status_of (s : st) (t : nat) : status :=
